@@ -604,7 +604,7 @@ class C19Engine(DbEngine):
         # 3. pre-existing contents
         inputs = []
         if not viol:
-            for case in ("rows", "empty", "random", "truncated", "newer", "create-only", "open-only"):
+            for case in ("rows", "empty", "random", "truncated", "newer", "create-only", "open-only", "odd-path"):
                 d = self.workdir("pre")
                 p = os.path.join(d, "db.sqlite")
                 try:
@@ -670,6 +670,49 @@ class C19Engine(DbEngine):
                             pass
                         if file_bytes(d) != before:
                             viol.append(self.v("create-only-refuses-existing", "create_%s_db changed an existing file" % kind))
+                    elif case == "odd-path":
+                        # a path the shell did not expand ("~/x.sqlite", taken literally), a
+                        # relative path and one with a space: started twice, rows must survive
+                        cwd, home = os.getcwd(), os.environ.get("HOME")
+                        try:
+                            os.chdir(d)
+                            os.makedirs(os.path.join(d, "~"), exist_ok=True)
+                            os.makedirs(os.path.join(d, "home"), exist_ok=True)
+                            os.makedirs(os.path.join(d, "a b"), exist_ok=True)
+                            os.environ["HOME"] = os.path.join(d, "home")
+                            for rel in ("~/tilde.sqlite", "a b/space.sqlite", "./rel.sqlite"):
+                                db = opener(rel)
+                                close_quiet(db)
+                                files = sorted(os.path.join(r, f) for r, _, fs in os.walk(d) for f in fs)
+                                real = [f for f in files if f.endswith(os.path.basename(rel))]
+                                if len(real) != 1:
+                                    viol.append(self.v("existing-database-kept", "start on %r left files %r" % (rel, files)))
+                                    break
+                                (rand_rows_channel if kind == "channel" else rand_rows_usage)(rng, real[0])
+                                before_dump = full_dump(real[0])
+                                db = opener(rel)
+                                close_quiet(db)
+                                files2 = sorted(os.path.join(r, f) for r, _, fs in os.walk(d) for f in fs)
+                                if files2 != files or full_dump(real[0]) != before_dump:
+                                    viol.append(self.v("existing-database-kept",
+                                                       "a second start on the path %r did not keep the existing %s database "
+                                                       "(files %r -> %r)" % (rel, kind, files, files2)))
+                                    break
+                                fn = database.create_channel_db if kind == "channel" else database.create_usage_db
+                                try:
+                                    close_quiet(fn(rel))
+                                    viol.append(self.v("create-only-refuses-existing",
+                                                       "create_%s_db accepted the existing path %r" % (kind, rel)))
+                                    break
+                                except database.DBAlreadyExists:
+                                    pass
+                        finally:
+                            os.chdir(cwd)
+                            if home is None:
+                                os.environ.pop("HOME", None)
+                            else:
+                                os.environ["HOME"] = home
+                        inputs.append(("odd-path", 3))
                     elif case == "open-only":
                         try:
                             db = database.open_existing_db(p)
